@@ -64,16 +64,14 @@ def check(run):
     dc = prog.fn("decoders.shell.deobfuscate_cmd")
     CMD = dc.params[0]
     rt = [n for n in own_nodes(dc.node) if isinstance(n, ast.Return)]
-    ok2 = False
-    if len(rt) == 1 and isinstance(rt[0].value, ast.Tuple) and len(rt[0].value.elts) == 2:
-        env = common.block_env(dc.node.body, rt[0]) or {}
-        v, lab = rt[0].value.elts
-        vs = norm_src(G.Atomizer(subst=env).inline(v))
-        if isinstance(lab, ast.IfExp):
-            ts = norm_src(G.Atomizer(subst=env).inline(lab.test))
-            ok2 = vs == f"strip_carets({CMD})" and ts in (f"strip_carets({CMD}) != {CMD}", f"{CMD} != strip_carets({CMD})") and \
-                prog.try_fold(sm, lab.body) == "unescape.shell.carets" and prog.try_fold(sm, lab.orelse) == ""
-    run.ob("R2-label", "decoders.shell.deobfuscate_cmd/label-iff-changed", ok2, w(dc.node), "labelled unescape.shell.carets exactly when de-escaping changed the text", "", mech="expression-shape match")
+    ok2 = bool(rt)
+    for r_ in rt:
+        env = common.block_env(dc.node.body, r_) or {}
+        ok2 = ok2 and isinstance(r_.value, ast.Tuple) and len(r_.value.elts) == 2 and norm_src(G.Atomizer(subst=env).inline(r_.value.elts[0])) == f"strip_carets({CMD})"
+    f_lab, f_emp, other = common.label_conditions(prog, sm, dc, "unescape.shell.carets", lambda env: G.Atomizer(subst=env, rename={CMD: "CMD"}))
+    changed = G.Atomizer().formula(common.spec_expr("strip_carets(CMD) != CMD"))
+    ok2 = ok2 and not other and G.equivalent(f_lab, changed)[0] and G.equivalent(f_emp, G.f_not(changed))[0]
+    run.ob("R2-label", "decoders.shell.deobfuscate_cmd/label-iff-changed", ok2, w(dc.node), "labelled unescape.shell.carets exactly when de-escaping changed the text", "", mech="return cases vs `strip_carets(cmd) != cmd`, by truth table")
 
     # ------------------------------------------------------------------ R3 encoded-command switch spellings
     enc = prog.const(sm, "ENC_RE")
@@ -107,25 +105,38 @@ def check(run):
 
     # ------------------------------------------------------------------ R4 encoded argument handling
     fp = prog.fn("decoders.shell.find_powershell_strings")
-    src_stmts = [norm_src(s) for s in own_nodes(fp.node) if isinstance(s, ast.stmt) and not isinstance(s, (ast.If, ast.For, ast.Try, ast.While))]
-    conv = [s for s in src_stmts if "a2b_base64" in s]
-    okc = len(conv) == 1 and ".decode('utf-16'" in conv[0] and conv[0].rstrip().endswith(".encode()") and "binascii.a2b_base64(encoded)" in conv[0]
-    run.ob("R4-encoded", "find_powershell_strings/base64-then-utf16", okc, w(fp.node), "the encoded argument is base64-decoded and then read as UTF-16", conv[0] if conv else "no conversion", mech="statement match")
-
-    def pos(sub):
-        for i, s in enumerate(src_stmts):
-            if sub in s:
-                return i
-        return -1
-    i_rw, i_split, i_asm = pos("b' -'.join("), pos("args = "), pos("b' -Command '")
-    okr = -1 < i_rw < i_split < i_asm and ".split(b'/')" in src_stmts[i_rw]
-    run.ob("R4-encoded", "find_powershell_strings/slash-rewrite-before-split", okr, w(fp.node), "/x switches are rewritten to -x before the invocation is split into tokens", "", mech="statement order")
-    asm = src_stmts[i_asm] if i_asm >= 0 else ""
-    oka = "b' '.join(args[:-1]) + b' -Command ' + b64" in asm
-    run.ob("R4-encoded", "find_powershell_strings/switch-replaced-by-command", oka, w(fp.node), "the value is the invocation without the encoded switch, followed by -Command and the decoded text", asm,
-           mech="statement match")
-    rs = [s for s in src_stmts if ".rsplit(maxsplit=1)" in s]
-    run.ob("R4-encoded", "find_powershell_strings/argument-is-last-token", len(rs) == 1, w(fp.node), "the encoded argument is the last whitespace-separated token", "", mech="statement match")
+    # roles are taken from the data flow, not from variable names: ENC is what a2b_base64 is given, B64 what its statement defines,
+    # RW the '/'-to-' -' rewrite, ARGS the token list split from it
+    simple = [s_ for s_ in own_nodes(fp.node) if isinstance(s_, ast.Assign) and len(s_.targets) == 1 and isinstance(s_.targets[0], ast.Name)]
+    order = {id(s_): i for i, s_ in enumerate(s_ for s_ in own_nodes(fp.node) if isinstance(s_, ast.stmt))}
+    conv_st = [s_ for s_ in simple if any(isinstance(c_, ast.Call) and prog.dotted(sm, c_.func) == "binascii.a2b_base64" for c_ in ast.walk(s_.value))]
+    ENC = B64 = None
+    okc = False
+    if len(conv_st) == 1:
+        call = next(c_ for c_ in ast.walk(conv_st[0].value) if isinstance(c_, ast.Call) and prog.dotted(sm, c_.func) == "binascii.a2b_base64")
+        if len(call.args) == 1 and isinstance(call.args[0], ast.Name):
+            ENC, B64 = call.args[0].id, conv_st[0].targets[0].id
+            vs = norm_src(conv_st[0].value)
+            okc = vs.startswith(f"binascii.a2b_base64({ENC}).decode('utf-16'") and vs.rstrip().endswith(".encode()")
+    run.ob("R4-encoded", "find_powershell_strings/base64-then-utf16", okc, w(conv_st[0]) if conv_st else w(fp.node),
+           "the encoded argument is base64-decoded and then read as UTF-16", norm_src(conv_st[0]) if conv_st else "no conversion", mech="data-flow roles + statement match")
+    rw_st = [s_ for s_ in simple if isinstance(s_.value, ast.Call) and isinstance(s_.value.func, ast.Attribute) and s_.value.func.attr == "join" and
+             prog.try_fold(sm, s_.value.func.value) == b" -" and len(s_.value.args) == 1 and norm_src(s_.value.args[0]).endswith(".split(b'/')")]
+    RW = rw_st[0].targets[0].id if len(rw_st) == 1 else None
+    sp_st = [s_ for s_ in simple if RW and norm_src(s_.value) in (f"{RW}.split()", f"{RW}.split(None)") and order[id(s_)] > order[id(rw_st[0])]]
+    ARGS = sp_st[0].targets[0].id if len(sp_st) == 1 else None
+    asm_st = [s_ for s_ in simple if ARGS and B64 and norm_src(s_.value) == f"b' '.join({ARGS}[:-1]) + b' -Command ' + {B64}"]
+    okr = bool(rw_st) and bool(sp_st) and bool(asm_st) and order[id(rw_st[0])] < order[id(sp_st[0])] < order[id(asm_st[0])]
+    run.ob("R4-encoded", "find_powershell_strings/slash-rewrite-before-split", okr, w(rw_st[0]) if rw_st else w(fp.node),
+           "/x switches are rewritten to -x before the invocation is split into tokens", "", mech="data-flow roles + statement order")
+    run.ob("R4-encoded", "find_powershell_strings/switch-replaced-by-command", len(asm_st) == 1, w(asm_st[0]) if asm_st else w(fp.node),
+           "the value is the invocation without the encoded switch, followed by -Command and the decoded text",
+           "no statement builds b' '.join(<tokens>[:-1]) + b' -Command ' + <decoded text>", mech="data-flow roles + statement match")
+    import re as _re
+    rs = [s_ for s_ in own_nodes(fp.node) if isinstance(s_, ast.stmt) and not isinstance(s_, (ast.If, ast.For, ast.Try, ast.While)) and
+          _re.search(r"\.rsplit\((maxsplit=1|None, 1|None, maxsplit=1|sep=None, maxsplit=1)\)", norm_src(s_))]
+    run.ob("R4-encoded", "find_powershell_strings/argument-is-last-token", len(rs) == 1, w(rs[0]) if rs else w(fp.node),
+           "the encoded argument is the last whitespace-separated token", "", mech="statement match")
 
     # ------------------------------------------------------------------ R6 caret state machine path table
     caret_table(run, prog, sc_)
